@@ -894,6 +894,11 @@ func init() {
 // ---- hashstructure.Hash: a deterministic hash of the deep (concrete) content ----------
 
 func init() {
+	// v2 (used by the RPC endpoints to detect "result did not change"): the same structural hash; struct
+	// tags (hash:"ignore") are not honoured, so a change confined to an ignored field counts as a change
+	externals["github.com/mitchellh/hashstructure/v2.Hash"] = func(fr *frame, a []value) value {
+		return externals["github.com/mitchellh/hashstructure.Hash"](fr, a[:1])
+	}
 	externals["github.com/mitchellh/hashstructure.Hash"] = func(fr *frame, a []value) value {
 		stubHit(fr, "hashstructure.Hash(structural FNV)")
 		var sb hashBuf
